@@ -11,6 +11,7 @@ CONSTANTS
   Page = 4
   Header = 2
   NameMeta = 1
+  LongNames = {"b"}
   IndexEnd = 3
   MaxOps = 0
   MaxFile = 27
